@@ -97,6 +97,13 @@ fn drive(ctx: &mut Ctx, image: &[u8], plan: ReaderPlan, seed: u64, entry: Entry,
     let base = alloc::begin();
     let mut rd = SimReader::new(image, plan, seed, ctx.trace_on).with_memory_limit(limit);
     let mut ok = false;
+    // sometimes the reader handed over is already positioned at or beyond the end of the data
+    // (where an earlier failed call may have left it): that is an empty stream, not a crash
+    if seed % 29 == 7 && matches!(entry, Entry::Messages) {
+        use std::io::{Seek, SeekFrom};
+        let _ = rd.seek(SeekFrom::Start(image.len() as u64 + seed % 5000));
+        ctx.count("reader_positioned_beyond_end");
+    }
     match entry {
         Entry::Messages => {
             if let Ok(v) = decode_messages(&mut rd) {
@@ -296,7 +303,12 @@ fn amplification(tape: &mut Tape, r: &mut Rng) -> (Vec<u8>, String) {
         }
         _ => {
             // many minimal messages (header + 32-byte data header, zero blocks)
-            let k = 1 + tape.draw(20000) as usize;
+            // up to and beyond 65,536 messages in one call (16-bit tallies)
+            let k = match tape.weighted(&[6, 1, 1]) {
+                0 => 1 + tape.draw(20000) as usize,
+                1 => 65_536 + tape.draw(3) as usize,
+                _ => 65_530 + tape.draw(5000) as usize,
+            };
             let mut out = Vec::with_capacity(k * 60);
             for i in 0..k {
                 let mut body = vec![0u8; 32];
@@ -358,7 +370,7 @@ impl Check for C04 {
                "stub": ["the storage device behind Read+Seek (SimReader)"]})
     }
     fn required_probes(&self, _tier: Tier) -> Vec<&'static str> {
-        vec!["returned_value", "returned_error", "radial_conversions", "fault.hard_io_error", "fault.seek_error", "fault.eintr", "fault.eof_cut", "extreme_applied", "unknown_block_name_reached"]
+        vec!["returned_value", "returned_error", "radial_conversions", "reader_positioned_beyond_end", "fault.hard_io_error", "fault.seek_error", "fault.eintr", "fault.eof_cut", "extreme_applied", "unknown_block_name_reached"]
     }
     fn budget_s(&self, tier: Tier) -> u64 {
         match tier {
@@ -368,6 +380,7 @@ impl Check for C04 {
     }
 
     fn run(&self, p: &Params, tape: &mut Tape, ctx: &mut Ctx) {
+        icd::ALLOW_NON_FINITE.with(|a| a.set(true));
         let opts = StreamOpts { max_msgs: 12, permute_pointers: true, gaps: true, max_gates: 1840, t31_percent: 70 };
         match p.section {
             0 => {
